@@ -22,6 +22,11 @@ type (
 	Map       = sync.Map
 )
 
+// OnceFunc, OnceValue and OnceValues mirror the sync helpers.
+func OnceFunc(f func()) func()                                 { return sync.OnceFunc(f) }
+func OnceValue[T any](f func() T) func() T                     { return sync.OnceValue(f) }
+func OnceValues[T1, T2 any](f func() (T1, T2)) func() (T1, T2) { return sync.OnceValues(f) }
+
 // NewCond mirrors sync.NewCond.
 func NewCond(l Locker) *Cond { return sync.NewCond(l) }
 
